@@ -71,3 +71,52 @@ loop(f"{T}:ExecutionTrace.merge", 0, invariant=[
     "all(self.executed_predicates[k] == old(self.executed_predicates)[k] "
     "    for k in keys(old(self.executed_predicates)) - _done)",
 ])
+
+FM = "pynguin.ga.fitness_metrics"
+contract(f"{FM}:analyze_results",
+         requires=["all(r.execution_trace is not None and wf_trace(r.execution_trace) for r in results)"],
+         fresh_result=False,
+         ensures=[
+             "wf_trace(result)",
+             "forall(lambda x: (x in result.executed_code_objects) == "
+             "   any(x in results[j].execution_trace.executed_code_objects for j in range(len(results))), 'int')",
+             "forall(lambda x: (x in result.covered_line_ids) == "
+             "   any(x in results[j].execution_trace.covered_line_ids for j in range(len(results))), 'int')",
+             "forall(lambda x: (x in result.checked_lines) == "
+             "   any(x in results[j].execution_trace.checked_lines for j in range(len(results))), 'int')",
+             "forall(lambda p: (p in result.true_distances) == "
+             "   any(p in results[j].execution_trace.true_distances for j in range(len(results))), 'int')",
+             # a branch is covered by the merged trace iff some merged test covers it
+             "forall(lambda p: (p in result.true_distances and result.true_distances[p] == 0) == "
+             "   any(p in results[j].execution_trace.true_distances and results[j].execution_trace.true_distances[p] == 0 "
+             "       for j in range(len(results))), 'int')",
+             "forall(lambda p: (p in result.false_distances and result.false_distances[p] == 0) == "
+             "   any(p in results[j].execution_trace.false_distances and results[j].execution_trace.false_distances[p] == 0 "
+             "       for j in range(len(results))), 'int')",
+             # merged distances are lower bounds of every merged test's distances, merged counts upper bounds
+             "all(all(result.true_distances[p] <= results[j].execution_trace.true_distances[p] and "
+             "        result.false_distances[p] <= results[j].execution_trace.false_distances[p] and "
+             "        result.executed_predicates[p] >= results[j].execution_trace.executed_predicates[p] "
+             "        for p in keys(results[j].execution_trace.executed_predicates)) for j in range(len(results)))",
+         ])
+loop(f"{FM}:analyze_results", 0, invariant=[
+    "wf_trace(merged)",
+    "forall(lambda x: (x in merged.executed_code_objects) == "
+    "   any(x in results[j].execution_trace.executed_code_objects for j in range(_i)), 'int')",
+    "forall(lambda x: (x in merged.covered_line_ids) == "
+    "   any(x in results[j].execution_trace.covered_line_ids for j in range(_i)), 'int')",
+    "forall(lambda x: (x in merged.checked_lines) == "
+    "   any(x in results[j].execution_trace.checked_lines for j in range(_i)), 'int')",
+    "forall(lambda p: (p in merged.true_distances) == "
+    "   any(p in results[j].execution_trace.true_distances for j in range(_i)), 'int')",
+    "forall(lambda p: (p in merged.true_distances and merged.true_distances[p] == 0) == "
+    "   any(p in results[j].execution_trace.true_distances and results[j].execution_trace.true_distances[p] == 0 "
+    "       for j in range(_i)), 'int')",
+    "forall(lambda p: (p in merged.false_distances and merged.false_distances[p] == 0) == "
+    "   any(p in results[j].execution_trace.false_distances and results[j].execution_trace.false_distances[p] == 0 "
+    "       for j in range(_i)), 'int')",
+    "all(all(merged.true_distances[p] <= results[j].execution_trace.true_distances[p] and "
+    "        merged.false_distances[p] <= results[j].execution_trace.false_distances[p] and "
+    "        merged.executed_predicates[p] >= results[j].execution_trace.executed_predicates[p] "
+    "        for p in keys(results[j].execution_trace.executed_predicates)) for j in range(_i))",
+])
